@@ -134,6 +134,18 @@ def known_funcs():
     return _KNOWN
 
 
+UFUNC_CMP = {'numpy.greater': 'Gt', 'numpy.less': 'Lt', 'numpy.greater_equal': 'GtE', 'numpy.less_equal': 'LtE', 'numpy.equal': 'Eq'}
+
+
+def depth_ok(f, depth=0):
+    """a callee chosen by a (shallow) conditional: gamma tree whose leaves are references"""
+    if depth > 3:
+        return False
+    if f.op == 'gamma':
+        return depth_ok(f.args[1], depth + 1) and depth_ok(f.args[2], depth + 1)
+    return f.op in ('ref', 'attr', 'closure')
+
+
 FALL = T('fall')
 RAISE = T('raise')
 UNDEF = T('undef')
@@ -156,6 +168,7 @@ class FuncGraph:
         self.shape_decl = {}
         self.cur_fn = fn            # function whose scope resolves global names (differs from fn while a helper is inlined)
         self._inline_stack = []
+        self._inline_exits = []
         self.inlined = []           # (helper Func, call node) of helpers inlined into this graph
         env = {}
         for i, p in enumerate(fn.params):
@@ -252,6 +265,8 @@ class FuncGraph:
     def st_Return(self, s, env):
         v = self.expr(s.value, env) if s.value is not None else const(None, s, self.fn)
         self.event('inline_return' if self._inline_stack else 'return', v, s)
+        if self._inline_stack and self._inline_exits:
+            self._inline_exits[-1].append(dict(env))
         return ('term', v)
 
     def st_Raise(self, s, env):
@@ -378,6 +393,7 @@ class FuncGraph:
 
     def assigned_names(self, stmts):
         names, attrs = set(), set()
+        new_helpers = self.prog.new_helper_names()
 
         class V(ast.NodeVisitor):
             def visit_Name(s2, n):
@@ -411,6 +427,12 @@ class FuncGraph:
                 for k in n.keywords:
                     if k.arg == 'out' and isinstance(k.value, ast.Name):
                         names.add(k.value.id)
+                # a helper that will be inlined may update its array arguments in place: they are loop carried
+                cal = n.func.id if isinstance(n.func, ast.Name) else (n.func.attr if isinstance(n.func, ast.Attribute) and isinstance(n.func.value, ast.Name) else None)
+                if cal is not None and cal in new_helpers:
+                    for a in list(n.args) + [k.value for k in n.keywords]:
+                        if isinstance(a, ast.Name):
+                            names.add(a.id)
                 s2.generic_visit(n)
 
             def visit_ListComp(s2, n):
@@ -589,7 +611,9 @@ class FuncGraph:
             self.note_shape_decl(target, value)
             for i, e in enumerate(target.elts):
                 tn = e.value if isinstance(e, ast.Starred) else e
-                u = self.mk('unpack', (value, i, n, star, tn.id if isinstance(tn, ast.Name) else None), node)
+                u = self.project(value, i, n, node) if star is None else None
+                if u is None:
+                    u = self.mk('unpack', (value, i, n, star, tn.id if isinstance(tn, ast.Name) else None), node)
                 self.assign(e.value if isinstance(e, ast.Starred) else e, u, env, node)
         elif isinstance(target, ast.Starred):
             self.assign(target.value, value, env, node)
@@ -604,6 +628,23 @@ class FuncGraph:
             self.event('setattr', value, node, data=dict(base=base, attr=target.attr))
             if isinstance(target.value, ast.Name):
                 env[('$attr', target.value.id, target.attr)] = value
+
+    def project(self, value, i, n, node, depth=0):
+        """i-th component of a value that is a gamma tree of n-tuple displays (the tuple a helper returns on each of its
+        paths): a, b = gamma(c, (x1, y1), (x2, y2))  ->  a = gamma(c, x1, x2).  None if the value has another form."""
+        if depth > 12 or not isinstance(value, T):
+            return None
+        if value.op == 'gamma':
+            a = self.project(value.args[1], i, n, node, depth + 1)
+            b = self.project(value.args[2], i, n, node, depth + 1)
+            if a is None or b is None:
+                return None
+            return self.mk('gamma', (value.args[0], a, b), node)
+        if value.op == 'raise':
+            return value
+        if value.op == 'tuple' and depth > 0 and len(value.args[0]) == n and not any(isinstance(x, T) and x.op == 'star' for x in value.args[0]):
+            return value.args[0][i]
+        return None
 
     def note_shape_decl(self, target, value):
         """`*independent, D, N = y.shape` declares the shape of the value `y` denotes here"""
@@ -641,6 +682,13 @@ class FuncGraph:
         if r is not None:
             if isinstance(r, Lib) and r.dotted == 'numpy.newaxis':
                 return const(None, node, self.fn)
+            if isinstance(r, tuple) and r and r[0] == 'global':
+                # a module-level named literal (`_FLOOR = 1e-10`) is the literal
+                v = r[1].globals_assigned.get(r[2])
+                if isinstance(v, ast.UnaryOp) and isinstance(v.op, ast.USub) and isinstance(v.operand, ast.Constant) and isinstance(v.operand.value, (int, float)):
+                    return const(-v.operand.value, node, self.fn)
+                if isinstance(v, ast.Constant) and isinstance(v.value, (int, float, str, bool, type(None))):
+                    return const(v.value, node, self.fn)
             return self.mk('ref', (r,), node)
         if name in BUILTINS:
             return self.mk('ref', (('builtin', name),), node)
@@ -688,7 +736,56 @@ class FuncGraph:
         base = self.expr(e.value, env)
         return self.load_attr(e, base, env)
 
+    def _desugar_max_key(self, e, env):
+        """max(iterable, key=lambda p: expr)  ->  the explicit search loop it abbreviates (first maximiser wins):
+               best, best_v = None, -inf
+               for p in iterable:
+                   v = expr
+                   if v > best_v: best_v, best = v, p
+        so that the rules about exhaustive searches apply to both spellings."""
+        if not (isinstance(e.func, ast.Name) and e.func.id in ('max', 'min') and e.func.id not in env and len(e.args) == 1 and len(e.keywords) == 1
+                and e.keywords[0].arg == 'key' and isinstance(e.keywords[0].value, ast.Lambda)):
+            return None
+        lam = e.keywords[0].value
+        a = lam.args
+        if len(a.args) != 1 or a.vararg or a.kwarg or a.kwonlyargs or a.defaults or a.posonlyargs:
+            return None
+        n = next(_ids)
+        var = a.args[0].arg
+        best, best_v, v = f'$best{n}', f'$bestv{n}', f'$v{n}'
+
+        def name(i, ctx=ast.Load):
+            return ast.Name(id=i, ctx=ctx())
+        inf = ast.Call(func=ast.Name(id='float', ctx=ast.Load()), args=[ast.Constant('-inf' if e.func.id == 'max' else 'inf')], keywords=[])
+        stmts = [
+            ast.Assign(targets=[name(best, ast.Store)], value=ast.Constant(None)),
+            ast.Assign(targets=[name(best_v, ast.Store)], value=inf),
+            ast.For(target=name(var, ast.Store), iter=e.args[0], orelse=[], body=[
+                ast.Assign(targets=[name(v, ast.Store)], value=lam.body),
+                ast.If(test=ast.Compare(left=name(v), ops=[ast.Gt() if e.func.id == 'max' else ast.Lt()], comparators=[name(best_v)]), orelse=[], body=[
+                    ast.Assign(targets=[name(best_v, ast.Store)], value=name(v)),
+                    ast.Assign(targets=[name(best, ast.Store)], value=name(var)),
+                ]),
+            ]),
+        ]
+        for st in stmts:
+            ast.copy_location(st, e)
+            ast.fix_missing_locations(st)
+        saved = env.get(var, UNDEF)
+        self.block(stmts, env)
+        out = env.get(best)
+        for k in (best, best_v, v):
+            env.pop(k, None)
+        if saved is UNDEF:
+            env.pop(var, None)
+        else:
+            env[var] = saved
+        return out
+
     def ex_Call(self, e, env):
+        d = self._desugar_max_key(e, env)
+        if d is not None:
+            return d
         f = self.expr(e.func, env)
         args = []
         for a in e.args:
@@ -697,6 +794,12 @@ class FuncGraph:
             else:
                 args.append(self.expr(a, env))
         kws = [(k.arg, self.expr(k.value, env)) for k in e.keywords]
+        args = self._splice_stars(args)
+        # f(op, *operands) with operands = gamma(c, (s, d, d), (d, d)): one call per alternative, other arguments that are selected by the
+        # same condition specialised - `f(op1, s, d, d) if c else f(op2, d, d)`
+        for a in args:
+            if a.op == 'star' and isinstance(a.args[0], T) and a.args[0].op == 'gamma' and self._tuple_tree(a.args[0]):
+                return self._distribute_call(f, args, kws, a, e, env)
         c = self.canonical_call(f, args, kws, e, env)
         if c is not None:
             return c
@@ -708,6 +811,58 @@ class FuncGraph:
                 self.event('inplace', t, e, data=dict(target=old, how='out=', name=k.value.id))
                 env[k.value.id] = t
         return t
+
+    def _splice_stars(self, args):
+        out = []
+        for a in args:
+            if a.op == 'star' and isinstance(a.args[0], T) and a.args[0].op in ('tuple', 'list'):
+                out += self._splice_stars(list(a.args[0].args[0]))
+            else:
+                out.append(a)
+        return out
+
+    def _tuple_tree(self, t, depth=0):
+        if depth > 6:
+            return False
+        if t.op == 'gamma':
+            return self._tuple_tree(t.args[1], depth + 1) and self._tuple_tree(t.args[2], depth + 1)
+        return t.op in ('tuple', 'list')
+
+    def _specialise(self, t, cond, pol, depth=0):
+        if isinstance(t, T) and t.op == 'gamma' and depth < 6:
+            if t.args[0] is cond:
+                return self._specialise(t.args[1] if pol else t.args[2], cond, pol, depth + 1)
+        return t
+
+    def _distribute_call(self, f, args, kws, star, e, env):
+        g = star.args[0]
+        cond = g.args[0]
+        outs = []
+        for pol, br in ((True, g.args[1]), (False, g.args[2])):
+            a2 = []
+            for a in args:
+                if a is star:
+                    a2.append(self.mk('star', (br,), e))
+                elif a.op == 'star':
+                    a2.append(self.mk('star', (self._specialise(a.args[0], cond, pol),), e))
+                else:
+                    a2.append(self._specialise(a, cond, pol))
+            a2 = self._splice_stars(a2)
+            k2 = [(k, self._specialise(v, cond, pol)) for k, v in kws]
+            self._guards.append((cond, pol))
+            try:
+                nested = next((a for a in a2 if a.op == 'star' and isinstance(a.args[0], T) and a.args[0].op == 'gamma' and self._tuple_tree(a.args[0])), None)
+                if nested is not None:
+                    outs.append(self._distribute_call(f, a2, k2, nested, e, env))
+                else:
+                    c = self.canonical_call(f, a2, k2, e, env)
+                    if c is None:
+                        c = self.mk('call', (f, tuple(a2), tuple(k2)), e)
+                        self.event('call', c, e)
+                    outs.append(c)
+            finally:
+                self._guards.pop()
+        return self.mk('gamma', (cond, outs[0], outs[1]), e)
 
     # ------------------------------------------------------------------ canonical forms of equivalent spellings
     def canonical_call(self, f, args, kws, e, env):
@@ -742,7 +897,74 @@ class FuncGraph:
                     items = [full() for _ in range(k)] + [none]
                 idx = self.mk('tuple', (tuple(items),), e)
                 return self.mk('sub', (x, idx), e)
+        if lib in UFUNC_CMP and plain and len(args) == 2 and not kws:
+            return self.mk('cmp', (UFUNC_CMP[lib], args[0], args[1]), e)          # np.greater(a, b) is a > b
+        if f.op == 'gamma' and depth_ok(f):
+            # compare = np.greater if c else np.less; compare(a, b)  ->  (a > b) if c else (a < b)
+            outs = []
+            for pol, br in ((True, f.args[1]), (False, f.args[2])):
+                self._guards.append((f.args[0], pol))
+                try:
+                    a2 = [self._specialise(a, f.args[0], pol) for a in args]
+                    k2 = [(k, self._specialise(v, f.args[0], pol)) for k, v in kws]
+                    c = self.canonical_call(br, a2, k2, e, env)
+                    if c is None:
+                        c = self.mk('call', (br, tuple(a2), tuple(k2)), e)
+                        self.event('call', c, e)
+                    outs.append(c)
+                finally:
+                    self._guards.pop()
+            return self.mk('gamma', (f.args[0], outs[0], outs[1]), e)
+        is_sum = lib == 'numpy.sum' or (f.op == 'attr' and f.args[1] == 'sum' and lib is None)
+        if is_sum and plain:
+            # np.sum(x * y, axis=-1) / (x * y).sum(-1) is the contraction einsum('...d,...d->...', x, y)
+            pos_ = ([f.args[0]] if f.op == 'attr' else []) + list(args)
+            kwd = dict(kws)
+            ax = pos_[1] if len(pos_) > 1 else kwd.get('axis')
+            kd = kwd.get('keepdims')
+            extra = set(kwd) - {'axis', 'keepdims'}
+            prod = pos_[0] if pos_ else None
+            if prod is not None and len(pos_) <= 2 and not extra and prod.op == 'binop' and prod.args[0] == 'Mult' and ax is not None and ax.op == 'const' \
+                    and ax.args[0] == -1 and (kd is None or (kd.op == 'const' and kd.args[0] is False)):
+                sub = const('...d,...d->...', e, self.fn)
+                return self._libcall('numpy.einsum', (sub, prod.args[1], prod.args[2]), e)
+        if lib == 'numpy.append' and plain:
+            kwd = dict(kws)
+            arr = args[0] if args else kwd.get('arr')
+            vals = args[1] if len(args) > 1 else kwd.get('values')
+            ax = args[2] if len(args) > 2 else kwd.get('axis')
+            if arr is not None and vals is not None and ax is not None and not (ax.op == 'const' and ax.args[0] is None):
+                # np.append(a, b, axis=k) is np.concatenate((a, b), axis=k)  (without an axis it flattens: left alone)
+                t = self.mk('call', (self.mk('ref', (Lib('numpy.concatenate'),), e), (self.mk('tuple', ((arr, vals),), e),), (('axis', ax),)), e)
+                self.event('call', t, e)
+                return t
+        if lib == 'numpy.clip' and plain and not any(k == 'out' for k, _ in kws):
+            kwd = dict(kws)
+            x = args[0] if args else kwd.get('a')
+            lo = args[1] if len(args) > 1 else kwd.get('a_min', kwd.get('min'))
+            hi = args[2] if len(args) > 2 else kwd.get('a_max', kwd.get('max'))
+            none = lambda v: v is None or (v.op == 'const' and v.args[0] is None)
+            if x is not None and not none(lo) and none(hi):
+                return self._libcall('numpy.maximum', (x, lo), e)          # clip(x, lo, None) is maximum(x, lo)
+            if x is not None and none(lo) and not none(hi):
+                return self._libcall('numpy.minimum', (x, hi), e)
+        if lib in ('numpy.minimum', 'numpy.maximum') and plain and len(args) == 2 and not kws:
+            # minimum(maximum(x, lo), hi) / maximum(minimum(x, hi), lo) is clip(x, lo, hi)
+            other = 'numpy.maximum' if lib == 'numpy.minimum' else 'numpy.minimum'
+            for inner, bound in ((args[0], args[1]), (args[1], args[0])):
+                if inner.op == 'call' and inner.args[0].op == 'ref' and isinstance(inner.args[0].args[0], Lib) and inner.args[0].args[0].dotted == other \
+                        and len(inner.args[1]) == 2 and not inner.args[2]:
+                    x, b2 = inner.args[1]
+                    if x.op in ('const', 'attr') and b2.op not in ('const', 'attr'):
+                        x, b2 = b2, x           # maximum(lo, x): the simple operand is the bound
+                    lo, hi = (b2, bound) if lib == 'numpy.minimum' else (bound, b2)
+                    return self._libcall('numpy.clip', (x, lo, hi), e)
         return self.inline_helper(f, args, kws, e, env)
+
+    def _libcall(self, dotted, args, node):
+        t = self.mk('call', (self.mk('ref', (Lib(dotted),), node), tuple(args), ()), node)
+        self.event('call', t, node)
+        return t
 
     def inline_helper(self, f, args, kws, e, env):
         """a call of a repo function that the reference tree (pbv/known_funcs.json) does not have is evaluated in place"""
@@ -753,8 +975,8 @@ class FuncGraph:
             callee, cenv = f.args[0], dict(f.extra or {})
         elif f.op == 'attr' and self.self_name and f.args[0] is self.params.get(self.self_name) and self.fn.cls is not None and not self._inline_stack:
             m = self.prog.find_method(self.fn.cls, f.args[1]) if hasattr(self.prog, 'find_method') else self.fn.cls.methods.get(f.args[1])
-            if isinstance(m, Func) and not m.is_static and not m.is_classmethod and not m.is_property:
-                callee, pre = m, [f.args[0]]
+            if isinstance(m, Func) and not m.is_classmethod and not m.is_property:
+                callee, pre = m, ([] if m.is_static else [f.args[0]])
         if callee is None or callee.qual in known_funcs() or callee.name == '<lambda>':
             return None
         if callee in self._inline_stack or len(self._inline_stack) >= 3 or callee.vararg or callee.kwarg:
@@ -765,6 +987,8 @@ class FuncGraph:
             return None
         if callee.cls is not None and not pre and not callee.is_static:
             return None
+        if f.op == 'attr' and isinstance(f.args[0], T) and f.args[0].op == 'ref' and isinstance(f.args[0].args[0], Cls):
+            pass
         pos = callee.posonly + callee.args
         actual = pre + list(args)
         if len(actual) > len(pos):
@@ -785,14 +1009,49 @@ class FuncGraph:
             env2 = dict(cenv)
             env2.update(bound)
             self._inline_stack.append(callee)
+            self._inline_exits.append([])
             self.inlined.append((callee, e))
             try:
-                _, ret = self.block(callee.node.body, env2)
+                env_out, ret = self.block(callee.node.body, env2)
             finally:
                 self._inline_stack.pop()
+                exits = self._inline_exits.pop()
         finally:
             self.cur_fn = saved
+        # a helper that updates an argument in place (x[i] = ..., x /= ...) updates the caller's array: names of the caller that
+        # denote the argument denote the updated value afterwards (single exit, or all exits agreeing)
+        finals = exits + ([env_out] if env_out is not None else [])
+        for p_, a_ in bound.items():
+            if not isinstance(a_, T) or not finals:
+                continue
+            vals = [fe.get(p_) for fe in finals]
+            if any(v is None for v in vals) or any(v is not vals[0] for v in vals[1:]):
+                continue
+            v = vals[0]
+            if v is not a_ and self._rooted_at(v, a_):
+                for k in list(env):
+                    if env[k] is a_:
+                        env[k] = v
         return subst_fall(ret, const(None, e, self.fn))
+
+    @staticmethod
+    def _rooted_at(t, a, depth=0):
+        """t is `a` after in-place updates (stores / augmented assignments / loop-carried versions of them)"""
+        while isinstance(t, T) and depth < 50:
+            depth += 1
+            if t is a:
+                return True
+            if t.op == 'store':
+                t = t.args[0]
+            elif t.op == 'iop':
+                t = t.args[1]
+            elif t.op == 'mu':
+                t = t.args[0]
+            elif t.op == 'gamma':
+                return FuncGraph._rooted_at(t.args[1], a, depth) or FuncGraph._rooted_at(t.args[2], a, depth)
+            else:
+                return False
+        return False
 
     def ex_BinOp(self, e, env):
         return self.mk('binop', (type(e.op).__name__, self.expr(e.left, env), self.expr(e.right, env)), e)
@@ -897,6 +1156,9 @@ class FuncGraph:
             it = self.expr(g.iter, env2)
             iters.append(it)
             el = self.mk('elem', (it,), g.target)
+            lp = Loop(g, 'comp')          # a comprehension generator is a loop for the purpose of "the i-th element" roles
+            lp.iter = it
+            el.extra = lp
             self.assign(g.target, el, env2, e)
             for c in g.ifs:
                 conds.append(self.expr(c, env2))
